@@ -117,22 +117,22 @@ def rare(time, xlab, dx, p_cj, d_cj, gam, u_piston):
         x2 = x1 + dx
         dxp = (x2 - xp)
         h = dxp / 2
-        u = dd * (x1 + h) + ee
-        p = p_cj * ((aa * (x1 + dxp) + bb)**bp1 - (aa * x1 + bb)**bp1) / (dxp * aa * bp1)
-        c = c_cj * (aa * (x1 + h) + bb)
-        rho = rho_cj * ((aa * (x1 + dxp) + bb)**dp1 - (aa * x1 + bb)**dp1) / (dxp * aa * dp1)
+        u = dd * (x2 - h) + ee
+        p = p_cj * ((aa * x2 + bb)**bp1 - (aa * xp + bb)**bp1) / (dxp * aa * bp1)
+        c = c_cj * (aa * (x2 - h) + bb)
+        rho = rho_cj * ((aa * x2 + bb)**dp1 - (aa * xp + bb)**dp1) / (dxp * aa * dp1)
 
         # residual q's
         ur = u_piston
-        pr = p_cj * (1 + gamm1 * (u - u_cj) / (2.0 * c_cj))**(2.0 * gam / gamm1)
-        cr = c_cj * (1 + gamm1 * (u - u_cj) / (2.0 * c_cj))
-        rhor = rho_cj * (p / p_cj)**(1.0 / gam)
+        pr = p_cj * (1 + gamm1 * (ur - u_cj) / (2.0 * c_cj))**(2.0 * gam / gamm1)
+        cr = c_cj * (1 + gamm1 * (ur - u_cj) / (2.0 * c_cj))
+        rhor = rho_cj * (pr / p_cj)**(1.0 / gam)
 
         # avg q's
         u = ur + (u - ur) * 2.0 * h / dx
         p = pr + (p - pr) * 2.0 * h / dx
         c = cr + (c - cr) * 2.0 * h / dx
-        rho = rho + (rho - rhor) * 2.0 * h / dx
+        rho = rhor + (rho - rhor) * 2.0 * h / dx
     # solution in the constant state
     else:
         u = u_piston
